@@ -228,3 +228,69 @@ func TestVerifBounded_C18_Graphs(t *testing.T) {
 		t.Fatalf("%d mismatches", fails)
 	}
 }
+
+// A stop requested while a dependant is still starting up: the dependency's service must stay up until the dependant's
+// own service has terminated (chains of 2 and 3 modules; the dependant at the end of the chain is held in its start function).
+func TestVerifBounded_C18_StopDuringStartup(t *testing.T) {
+	cases, fails := 0, 0
+	for chain := 2; chain <= 3; chain++ {
+		cases++
+		ev := &verifEvents{}
+		releaseStart := make(chan struct{})
+		inStart := make(chan struct{})
+		mm := NewManager(log.NewNopLogger())
+		names := verifNames[:chain] // names[i+1] depends on names[i]; the last one blocks in its start function
+		for i, n := range names {
+			i, n := i, n
+			mm.RegisterModule(n, func() (services.Service, error) {
+				return services.NewBasicService(func(context.Context) error {
+					if i == chain-1 {
+						close(inStart)
+						<-releaseStart
+					}
+					ev.add("started:" + n)
+					return nil
+				}, func(ctx context.Context) error { <-ctx.Done(); return nil }, func(error) error { ev.add("stopped:" + n); return nil }), nil
+			})
+			if i > 0 {
+				if err := mm.AddDependency(n, names[i-1]); err != nil {
+					t.Fatal(err)
+				}
+			}
+		}
+		svcs, err := mm.InitModuleServices(names[chain-1])
+		if err != nil {
+			t.Fatal(err)
+		}
+		var list []services.Service
+		for _, s := range svcs {
+			list = append(list, s)
+		}
+		sm, _ := services.NewManager(list...)
+		_ = sm.StartAsync(context.Background())
+		<-inStart // every dependency is running, the last module's service is inside its start function
+		sm.StopAsync()
+		// give a wrongly ordered stop the chance to happen, then let the dependant finish starting
+		time.Sleep(100 * time.Millisecond)
+		early := ""
+		for _, n := range names[:chain-1] {
+			if ev.index("stopped:"+n) >= 0 {
+				early += n + " "
+			}
+		}
+		close(releaseStart)
+		_ = sm.AwaitStopped(context.Background())
+		last := names[chain-1]
+		for _, n := range names[:chain-1] {
+			if si, sl := ev.index("stopped:"+n), ev.index("stopped:"+last); early != "" || (sl >= 0 && si < sl) {
+				fails++
+				fmt.Printf("BOUNDED-VIOLATION case=c18-stop-during-startup:chain=%d module %s was stopped (early: %q) before its dependant %s, which was still starting up, had stopped; events %v\n", chain, n, early, last, ev.log)
+				break
+			}
+		}
+	}
+	fmt.Printf("BOUNDED-CASES name=C18_StopDuringStartup n=%d distinct=%d bound=dependency chains of 2 and 3 modules, stop requested while the last module's service is inside its start function\n", cases, cases)
+	if fails > 0 {
+		t.Fatalf("%d violations", fails)
+	}
+}
